@@ -123,6 +123,81 @@ CLAIMED = {
         "Python tokenizer of vf/checks/c08.py. Unspecified behaviour (invalid pastes, DR 268 rescanning, "
         "unterminated invocations) is marked by the spec and dropped.",
         "DESIGN.md §C08"),
+    "C01": (
+        "TLA+ specs CppLibCalls/WrapC (signatures over argument kinds with a defined meaning Sem shared by the spec and "
+        "the generated C++ bodies; wrapper variants per omitted default; object heap), TLC exhaustive single-call "
+        "behaviours + simulated call sequences; replay through compiled -c and -python wrappers driven only by the "
+        "database (ctypes prototypes from recorded types), compared step by step with the spec and with a native run",
+        "Every signature of the alphabet with boundary argument tuples, and call sequences in which every wrapper "
+        "variant is called at least twice on different objects, are executed through the real generated wrappers in "
+        "12 option sets; return values, object states and the log of the instrumented bodies must equal Sem after "
+        "every step.",
+        "Trusted: TLC, g++, the renderer vf/wraplib.py and the ctypes driver; spec != native run is exit 2. Floats are "
+        "exact dyadic values (transport, not arithmetic); 64-bit values are (hi, lo) word pairs. -python -true-names, "
+        "destructor wrappers (none are generated) and several language features are not covered (DESIGN.md 14).",
+        "DESIGN.md §C01"),
+    "C02": (
+        "TLA+ specs PyDispatch (overload sets built one overload per step; reference = C++ overload resolution on "
+        "corresponding argument categories; mechanism = map_sets / collapse_default_remaps / RemapCompareLess order / "
+        "per-parameter checks transcribed as a step machine) and PyObjects (ownership and constness of wrapped "
+        "instances); TLC refinement invariant over all call tuples; replay on imported -python-native extension "
+        "modules built against shims (vf/pymod.py), every call judged on overload log, values, exception, refcounts, "
+        "ownership bits; g++ validates the reference",
+        "TLC checks, for every overload set and call tuple within the bound, that the transcribed dispatch mechanism "
+        "is order-insensitive under sort ties and equals C++ overload resolution outside the recorded deviation "
+        "classes, and the ownership invariants over all histories; the built modules must behave as the mechanism "
+        "model predicts on every replayed call and history.",
+        "Trusted: TLC, g++ (native calls validate CppSelect; mismatch is exit 2), CPython 3.11, the shims in "
+        "/verif/shims. Overload sets not distinguishable by Python type category are outside the domain. Coercion "
+        "constructors, keyword dispatch, item assignment, reference-counted classes are not covered.",
+        "DESIGN.md §C02"),
+    "C03": (
+        "TLA+ specs HashNames (hash_function_signature collision handling over abstract two-valued hash functions: "
+        "tombstone, owner extension, suffix loop, frozen names) and OptLattice (pairwise covering set of option x "
+        "construct-feature rows computed by TLC); each row replayed: interrogate (+ interrogate_module) -> g++ "
+        "-fsyntax-only, compile, link with -z defs, nm uniqueness, Python import; collision libraries constructed "
+        "with a ported hash; H-hash traces validated against HashNamesTrace",
+        "Emitted wrapper and unique names are distinct and never change for every insertion order and hash pair "
+        "(TLC); every row of the covering array and the collision libraries must produce code that compiles, links "
+        "and (python back-ends) imports, with every database wrapper defined exactly once.",
+        "Trusted: TLC, g++/ld/nm, CPython 3.11, the shims (option sets that depend on the Panda3D runtime are "
+        "compiled against them). A 3-way covering array was too slow in TLC; thorough uses many pairwise variants.",
+        "DESIGN.md §C03"),
+    "C14": (
+        "TLA+ spec Repro (a run as a step machine whose nondeterministic choices are the hidden inputs: allocation "
+        "order feeding the RemapCompareLess sort, unordered iteration, clock / SOURCE_DATE_EPOCH, locale, "
+        "environment), TLC: OutputPure and 'sort is allocation-independent iff the comparator is total'; replay of "
+        "the dumped overload sets under a seeded allocator shuffle (LD_PRELOAD), locales, TZ, environment padding, "
+        "setarch -R and time; sha256 equality; H-sort traces validated against ReproTrace",
+        "TLC enumerates overload sets and reports exactly those with comparator ties; all of them plus controls are "
+        "built into libraries and run repeatedly under differing hidden inputs; outputs must be byte-identical with "
+        "a fixed epoch and differ only in the file identifier without.",
+        "Trusted: TLC, harness/shufmalloc.c (the check fails as machinery error when fewer than half of the sets "
+        "were observed in two or more heap orders). No comma-decimal locale is installed in the sandbox.",
+        "DESIGN.md §C14"),
+    "C15": (
+        "TLA+ specs ToolRun (process life cycle and exit protocol) and LexModes (51 scanner modes x 24 symbols; TLC "
+        "emits one input per mode path and the check verifies every reachable (mode, symbol/EOF) transition is "
+        "covered); each generated input plus hand-written directive/literal edge cases fed as source, include, .N "
+        "file and -D value to parse_file and interrogate; all run records and H-run hook events validated against "
+        "ToolRunTrace; thorough tier under ASan+UBSan",
+        "Bounded-exhaustive enumeration over the lexer-mode model instead of random fuzzing: every mode transition "
+        "reachable within the length bound is exercised; each run must terminate in bounded time without signal, and "
+        "a run that reported a parse error exits non-zero and writes no output.",
+        "Trusted: TLC, the mode model's fidelity to the scanner (derived by reading), time limits (re-run before a "
+        "hang is reported). Random byte-level mutation is not done (not a model-based technique).",
+        "DESIGN.md §C15"),
+    "C19": (
+        "TLA+ spec ToolRun (per channel open / writes / flush / close / check, at most one fault per channel, sticky "
+        "fail bit, exit status), TLC exhaustive over fault schedules with a vacuity guard (the unfixed protocol must "
+        "violate C19_FaultReported); every schedule replayed with an LD_PRELOAD fault injector at every write index "
+        "of the measured fault-free run plus static conditions (missing directory, directory target, immutable "
+        "file, full device via mknod); merged hook + injector traces validated against ToolRunTrace",
+        "Every single-fault schedule on every requested output of interrogate and interrogate_module, at every "
+        "write(2)/close index, must end in a non-zero exit status; fault-free runs must exit 0 with complete files.",
+        "Trusted: TLC, harness/faultio.c reaching libstdc++ streams (a fault-free run must log at least one write per "
+        "output, else exit 2).",
+        "DESIGN.md §C19"),
 }
 
 NOT_APPLICABLE = {
